@@ -158,11 +158,11 @@ func getShardBetweenExprRouteResult(rule router.Rule, n *ast.BetweenExpr) ([]int
 
 	if n.Not {
 		if start > last {
-			start, last = last, start
-			start = adjustShardIndex(rangeShard, rightValue, start)
-		} else {
-			start = adjustShardIndex(rangeShard, leftValue, start)
+			// the bounds are reversed: "x NOT BETWEEN hi AND lo" (x < hi OR x > lo) holds
+			// for every non-NULL x, so no table may be pruned
+			return rule.GetSubTableIndexes(), nil
 		}
+		start = adjustShardIndex(rangeShard, leftValue, start)
 
 		l1 := makeList(rule.GetFirstTableIndex(), start+1)
 		l2 := makeList(last, rule.GetLastTableIndex()+1)
